@@ -75,7 +75,10 @@ def run(rep):
             j = complex(rng.uniform(-0.6, 5), rng.uniform(-10, 10))
             ref = complex(mp.mpf(2) ** (mp.mpc(j) + 1) * mp.gamma(mp.mpc(j) + mp.mpf(5) / 2) / mp.gamma(mp.mpf(3) / 2) /
                           mp.gamma(mp.mpc(j) + 3))
-            got = complex(wilson._fshu(np.array([j]))[0])
+            fshu_ = common.private(rep, wilson, '_fshu', 'oracle.fshu skipped; the model is fed with the definition instead (props.C04.shuvaev)')
+            if fshu_ is None:
+                break
+            got = complex(fshu_(np.array([j]))[0])
             dev = abs(got - ref) / abs(ref)
             track('_fshu vs mpmath, relative', dev)
             rep.case('oracle.fshu', str(j), sample=dict(j=str(j), fshu=str(got), mpmath=str(ref)))
@@ -297,7 +300,8 @@ def run(rep):
                 s0 = j2x_scale(th, xi, 0, Q2, None, gpd0, None)
                 tf = th.tff(xi, t, Q2)
                 hm = np.einsum('fa,ja->jf', th.frot_rho0_4, th.H(xi, t))
-                pre = abs(sdiv(tf[1], th._mellin_barnes_integral(xi, th.wce_dvmp[Q2], hm)[1]))
+                asq_ = g.qcd.as2pf(th.p, th.nf, Q2, th.asp[th.p], th.r20)
+                pre = constants.CF * constants.F_rho0 * 2 * math.pi * asq_ / constants.NC / math.sqrt(Q2)
                 cfj = np.abs(np.exp((th.jpoints + 1) * math.log(1 / xi)))
                 a = np.einsum('j,sa,sja,ja->j', cfj, np.abs(pwH), np.abs(th.wce_dvmp[Q2]), np.abs(hm))
                 vals.update(F2=complex(f2), HxQ=complex(hx[0]), HxG=complex(hx[1]), TFF=complex(tf[0], tf[1]))
